@@ -60,3 +60,33 @@ def adjust_events(events: Arr(Real, None), labels: Opt(Lst(ObjT)) = None, t_min:
     ensures(implies(not is_none(t_min), out[0] == val(t_min) and forall(0, m, lambda k: out[k] >= val(t_min))), label='begins-at-t_min', props="C13")
     ensures(implies(not is_none(t_max), out[m - 1] == val(t_max) and forall(0, m, lambda k: out[k] <= val(t_max))), label='ends-at-t_max', props="C13")
     ensures(forall2(0, m, lambda k, l: implies(k < l, out[k] <= out[l])), label='sorted', props="C13")
+
+
+def valid_intervals(I):
+    return forall(0, length(I), lambda i: 0 <= I[i, 0] and 0 <= I[i, 1] and I[i, 0] < I[i, 1])
+
+
+def close_to(a, b):
+    return absr(a - b) <= 1e-08 + 1e-05 * absr(b)
+
+
+@contract("mir_eval.segment.validate_structure", props="C14")
+def validate_structure(reference_intervals: Arr(Real, None, 2), reference_labels: Lst(ObjT), estimated_intervals: Arr(Real, None, 2), estimated_labels: Lst(ObjT)):
+    """documented conventions of a labelled segmentation pair: valid intervals, one label per interval, start at 0, end together"""
+    nr = length(reference_intervals)
+    ne = length(estimated_intervals)
+    raises(ValueError, when=not (valid_intervals(reference_intervals) and valid_intervals(estimated_intervals)
+                                 and length(reference_labels) == nr and length(estimated_labels) == ne
+                                 and implies(nr > 0, starts_at_zero(reference_intervals)) and implies(ne > 0, starts_at_zero(estimated_intervals))
+                                 and implies(nr > 0 and ne > 0, end_together(reference_intervals, estimated_intervals))), props="C14")
+
+
+def starts_at_zero(I):
+    """the smallest boundary is (numerically) 0; for valid intervals that is the smallest start"""
+    return exists(0, length(I), lambda i: I[i, 0] <= 1e-08)
+
+
+def end_together(R, E):
+    """the largest boundaries of the two annotations agree (np.allclose tolerance)"""
+    return exists(0, length(R), lambda i: forall(0, length(R), lambda k: R[k, 1] <= R[i, 1])
+                  and exists(0, length(E), lambda j: forall(0, length(E), lambda k: E[k, 1] <= E[j, 1]) and close_to(R[i, 1], E[j, 1])))
